@@ -156,6 +156,7 @@ number(struct scanner *s)
 		case '-':
 			if (!allowsign)
 				goto done;
+			allowsign = false;
 			break;
 		case '_':
 		case '.':
